@@ -194,7 +194,10 @@ func TestRandom(t *testing.T) {
 		return out
 	}
 	distinct := map[string]bool{}
-	actions := []string{"get", "info", "put", "activate", "delete"}
+	// the five actions of the API, plus strings that are no action at all (a typo or a newer release's action in a policy
+	// file, an empty string): a rule listing one grants nothing the API asks for, and asking for one is granted only by a
+	// rule that lists that very string
+	actions := []string{"get", "info", "put", "activate", "delete", "list", "", "Get", "create"}
 	for i := 0; i < n; i++ {
 		if i%3 != 2 {
 			p := genPat(maxLen)
@@ -218,7 +221,7 @@ func TestRandom(t *testing.T) {
 			var rule acl.Rule
 			j := ruleJ{Action: []string{}, Secret: [][]int{}}
 			for _, a := range actions {
-				if r.Intn(5) < 2 {
+				if (len(a) > 0 && a[0] >= 'a' && a != "list" && a != "create" && r.Intn(5) < 2) || r.Intn(12) == 0 {
 					rule.Action = append(rule.Action, acl.Action(a))
 					j.Action = append(j.Action, a)
 				}
